@@ -34,13 +34,16 @@ func init() {
 		Level: "exploration",
 		Rule: "seeded cases = (transport-wide default writers) x (per-operation writers or none or PassThroughAuth) x (Authorization header preset by the parameter writer: Bearer / Basic / foreign scheme / none) x " +
 			"(access_token in query) x (access_token in urlencoded or multipart form body) x server options (realm mode, context-aware or plain constructors, *http.Request or *ScopedAuthRequest argument, " +
-			"required scopes, server-side spelling of key name and location, callback outcome principal / error / both). Writers are client.BasicAuth / APIKeyAuth(header|query) / BearerToken, optionally wrapped in client.Compose. " +
+			"required scopes, server-side spelling of key name and location, callback outcome principal / error / both / neither). Writers are client.BasicAuth / APIKeyAuth(header|query) / BearerToken, optionally wrapped in client.Compose. " +
 			"The request is built by client.Runtime.CreateHttpRequest, serialised with Request.Write and re-parsed with http.ReadRequest; a smaller stream of cases (quick: 150 per worker, thorough: 10000 per worker) is sent by Runtime.Submit to a loopback httptest.Server instead, " +
 			"where every request the server receives is judged, a second request for one Submit is a violation, and a Submit that fails (or never reaches the handler) is charged to the case when a plain control request is delivered right afterwards and the case fails the same way again; " +
 			"a fresh copy of the received request is handed to security.BasicAuth*/BearerAuth*/APIKeyAuth* (one probe per kind and per key name and location mentioned in the case) with recording callbacks. " +
 			"User names: bytes without ':'; passwords, query and form tokens: arbitrary bytes; header tokens: visible ASCII, 0x80-0xff, inner SP/HTAB. All tokens of a case are pairwise distinct. " +
 			"One case in forty lengthens one or two of its credentials (any slot: user, password, header/query/form token, API key, preset header) to 100 B, 4 KiB or 64 KiB, with [A-Za-z0-9] filler or filler over the slot's whole alphabet. " +
 			"The required scopes (incl. unsorted, repeated, mixed-case and padded elements) are handed to the authenticator as a copy made per call and compared with the case's own copy. " +
+			"One case in five carries a static query parameter in the base path and/or the path pattern, mostly named like an effective query-located API key (the writer's value is owed to arrive), else 'tenant'. " +
+			"Four cases in ten consult one *http.Request more than once: 'twice' = each probe's copy is handed to a second, freshly built authenticator of the same kind with other required scopes; " +
+			"'shared' = all probes of the case run on ONE request in two rounds and FailedBasicAuth / OAuth2SchemeName / the callback's context value are re-read at the end; every consultation is judged like the first. " +
 			"non-trivial = a transmitted credential holds >= 1 byte outside [A-Za-z0-9], or >= 2 credentials/placements are present at once; distinct by the whole case",
 		Assumptions: []string{
 			"header-carried tokens have no leading/trailing whitespace and no control bytes (HTTP trims the former, Go's transport and server refuse the latter); empty tokens and empty API keys are not generated",
@@ -91,13 +94,38 @@ type Case struct {
 	SchemeNm  string   `json:"scheme_name"`
 	KeyCase   int      `json:"key_case,omitempty"` // server spelling of header key names: 0 same 1 lower 2 upper 3 canonical
 	InCase    int      `json:"in_case,omitempty"`  // server spelling of the location: 0 lower 1 Title 2 UPPER
-	Outcome   string   `json:"outcome"`            // ok | err | both
+	Outcome   string   `json:"outcome"`            // ok | err | both | none (the callback returns (nil, nil))
 	TCP       bool     `json:"tcp,omitempty"`
+
+	// static query parameters carried by the transport's base path / by the operation's path pattern
+	BaseQuery    []KV `json:"base_query,omitempty"`
+	PatternQuery []KV `json:"pattern_query,omitempty"`
+	// Reuse: "" = every probe gets a pristine copy of the request; "twice" = each probe's copy is consulted a second
+	// time by a freshly built authenticator of the same kind with other required scopes; "shared" = all probes of the
+	// case are consulted on ONE *http.Request, in two rounds, and the markers on the request are re-read at the end
+	Reuse string `json:"reuse,omitempty"`
 
 	// Stretch lengthens credentials of the case (recipes, so that recorded cases stay small); see expand.
 	Stretch []Stretch `json:"stretch,omitempty"`
 
 	orig *Case // set on the expanded working copy: the recorded (compact) form of the case
+}
+
+// KV is one static query parameter.
+type KV struct {
+	Name  string `json:"name"`
+	Value mon.Q  `json:"value"`
+}
+
+func staticQuery(l []KV) string {
+	if len(l) == 0 {
+		return ""
+	}
+	var parts []string
+	for _, kv := range l {
+		parts = append(parts, url.QueryEscape(kv.Name)+"="+url.QueryEscape(string(kv.Value)))
+	}
+	return "?" + strings.Join(parts, "&")
 }
 
 // Stretch is the recipe of one long credential: the value of the slot becomes the slot's own short value
@@ -160,12 +188,12 @@ func presetValue(p *Cred) string {
 }
 
 func buildOperation(c *Case, host string) (*client.Runtime, *runtime.ClientOperation) {
-	rt := client.New(host, "/v1", []string{"http"})
+	rt := client.New(host, "/v1"+staticQuery(c.BaseQuery), []string{"http"})
 	rt.DefaultAuthentication = writersOf(c.Default, c.DefaultCompose)
 	op := &runtime.ClientOperation{
 		ID:                 "op",
 		Method:             c.Method,
-		PathPattern:        "/things/{id}",
+		PathPattern:        "/things/{id}" + staticQuery(c.PatternQuery),
 		ProducesMediaTypes: []string{runtime.JSONMime},
 		Schemes:            []string{"http"},
 		Reader: runtime.ClientResponseReaderFunc(func(runtime.ClientResponse, runtime.Consumer) (interface{}, error) {
@@ -326,6 +354,8 @@ type ctxKey struct{}
 
 type observation struct {
 	p           probe
+	round       int      // 1 = first consultation of the request by this kind of authenticator, 2 = a later one (Reuse)
+	scopes      []string // the oracle's own copy of the scopes required in this consultation
 	panicked    string
 	applies     bool
 	principal   interface{}
@@ -378,14 +408,31 @@ func spellIn(c *Case, in string) string {
 	return in
 }
 
-func runProbe(c *Case, p probe, req *http.Request) (o observation) {
+// scopesFor gives the required scopes of a consultation: the case's for the first, others for a later one (the
+// alternatives of one operation name the same scheme with different scopes).
+func scopesFor(c *Case, round int) []string {
+	if round <= 1 {
+		return cloneScopes(c.Scopes)
+	}
+	out := []string{"consulted-again"}
+	for i := len(c.Scopes) - 1; i >= 0; i-- {
+		out = append(out, c.Scopes[i])
+	}
+	return out
+}
+
+func runProbe(c *Case, p probe, req *http.Request, round int) (o observation) {
 	o.p = p
+	o.round = round
+	o.scopes = scopesFor(c, round)
 	outcome := func() (interface{}, error) {
 		switch c.Outcome {
 		case "err":
 			o.cbPrincipal, o.cbErr = nil, errors.New("refused by the application")
 		case "both":
 			o.cbPrincipal, o.cbErr = &principal{id: 2}, errors.New("refused, with a principal")
+		case "none":
+			o.cbPrincipal, o.cbErr = nil, nil // neither a principal nor an error: still the callback's verdict on a credential that WAS sent
 		default:
 			o.cbPrincipal, o.cbErr = &principal{id: 1}, nil
 		}
@@ -445,7 +492,7 @@ func runProbe(c *Case, p probe, req *http.Request) (o observation) {
 	var param interface{} = req
 	if p.kind == "bearer" || c.Scoped {
 		// the library gets its own copy of the required scopes: the oracle's reference (c.Scopes) is never in its hands
-		param = &security.ScopedAuthRequest{Request: req, RequiredScopes: cloneScopes(c.Scopes)}
+		param = &security.ScopedAuthRequest{Request: req, RequiredScopes: cloneScopes(o.scopes)}
 	}
 	// an authenticator is built once and serves many requests: an earlier request with OTHER credentials
 	// (of every kind and placement) goes through the same instance first; nothing of it may show up below
@@ -488,12 +535,39 @@ func spellKeyName(c *Case, p probe) string {
 
 func probeAll(c *Case, fresh func() (*http.Request, error)) ([]observation, error) {
 	var out []observation
-	for _, p := range probesOf(c) {
+	switch c.Reuse {
+	case "shared":
+		// the middleware consults every authenticator of an operation's alternatives on the one request it received
 		req, err := fresh()
 		if err != nil {
 			return nil, err
 		}
-		out = append(out, runProbe(c, p, req))
+		for round := 1; round <= 2; round++ {
+			for _, p := range probesOf(c) {
+				out = append(out, runProbe(c, p, req, round))
+			}
+		}
+		end := observation{p: probe{kind: "markers"}, round: 2}
+		end.failedRealm = security.FailedBasicAuth(req)
+		end.schemeName = security.OAuth2SchemeName(req)
+		end.ctxMarker = req.Context().Value(ctxKey{})
+		out = append(out, end)
+	case "twice":
+		for _, p := range probesOf(c) {
+			req, err := fresh()
+			if err != nil {
+				return nil, err
+			}
+			out = append(out, runProbe(c, p, req, 1), runProbe(c, p, req, 2))
+		}
+	default:
+		for _, p := range probesOf(c) {
+			req, err := fresh()
+			if err != nil {
+				return nil, err
+			}
+			out = append(out, runProbe(c, p, req, 1))
+		}
 	}
 	return out, nil
 }
@@ -720,6 +794,21 @@ func runCase(m *mon.M, c *Case) {
 		m.Class("long-credential/" + channel(c) + "/" + sizeClass(st.Len))
 	}
 	m.Note("authenticator_calls", int64(len(obs)))
+	if c.Reuse != "" {
+		m.Class("request-reuse/" + c.Reuse)
+		if strings.HasPrefix(e.bearerSrc, "form") {
+			m.Class("request-reuse/" + c.Reuse + "/form-only-token")
+		}
+	}
+	for _, l := range [][]KV{c.BaseQuery, c.PatternQuery} {
+		for _, kv := range l {
+			if _, ok := e.qryKeys[kv.Name]; ok {
+				m.Class("static-query/named-like-an-effective-key")
+			} else {
+				m.Class("static-query/unrelated")
+			}
+		}
+	}
 
 	// non-triviality
 	nt := len(e.placements) >= 2
@@ -829,10 +918,19 @@ func bearerSourceOf(c *Case, tok string) string {
 }
 
 func judge(m *mon.M, c *Case, e *expectation, o *observation) {
+	if o.p.kind == "markers" {
+		judgeMarkers(m, c, e, o)
+		return
+	}
 	lab := o.p.label()
 	ch := channel(c)
+	// a refuting observation of a LATER consultation of the same *http.Request gets its own signature
+	again := ""
+	if o.round > 1 {
+		again = "/request-consulted-again"
+	}
 	if o.panicked != "" {
-		m.Violate(lab+"/authenticator-panic", "Authenticate panicked: "+o.panicked, rep(c))
+		m.Violate(lab+"/authenticator-panic"+again, "Authenticate panicked: "+o.panicked, rep(c))
 		return
 	}
 	// what is owed to this probe
@@ -861,11 +959,11 @@ func judge(m *mon.M, c *Case, e *expectation, o *observation) {
 		feat += "+" + sc
 	}
 	describe := func() string {
-		return fmt.Sprintf("[%s] probe %s name=%q: applies=%v calls=%d principal=%v err=%v; owed=%v (%s)", ch, lab, o.p.name, o.applies, len(o.calls), o.principal, o.err, owed, src)
+		return fmt.Sprintf("[%s] consultation %d of the request (reuse=%q) probe %s name=%q: applies=%v calls=%d principal=%v err=%v; owed=%v (%s)", ch, o.round, c.Reuse, lab, o.p.name, o.applies, len(o.calls), o.principal, o.err, owed, src)
 	}
 
 	if len(o.calls) > 1 {
-		m.Violate(lab+"/callback-called-twice", describe(), rep(c))
+		m.Violate(lab+"/callback-called-twice"+again, describe(), rep(c))
 		return
 	}
 	called := len(o.calls) == 1
@@ -883,24 +981,27 @@ func judge(m *mon.M, c *Case, e *expectation, o *observation) {
 			if called {
 				got = fmt.Sprintf(" callback got (%s,%s)", qclip(o.calls[0].a), qclip(o.calls[0].b))
 			}
-			m.Violate(lab+"/applied-without-credential/"+why, describe()+got, rep(c))
+			m.Violate(lab+"/applied-without-credential/"+why+again, describe()+got, rep(c))
 			return
 		}
 		if o.principal != nil {
-			m.Violate(lab+"/principal-invented", describe(), rep(c))
+			m.Violate(lab+"/principal-invented"+again, describe(), rep(c))
 		}
 		if o.p.kind == "basic" {
-			judgeRealm(m, c, o, "no-credential")
+			judgeRealm(m, c, o, "no-credential"+again)
 		}
 		return
 	}
 
 	m.Class("verdict/" + lab + "/applicable/" + src)
 	if !called || !o.applies {
-		if src == "default" {
-			m.Violate(lab+"/default-auth-not-applied", describe(), rep(c))
+		if called && c.Outcome == "none" {
+			// the callback WAS shown the credential and answered (nil, nil): "not applicable" is reserved for requests without the credential
+			m.Violate(lab+"/not-applicable-although-callback-consulted/outcome-none"+again, describe(), rep(c))
+		} else if src == "default" {
+			m.Violate(lab+"/default-auth-not-applied"+again, describe(), rep(c))
 		} else {
-			m.Violate(lab+"/not-applied-although-sent/"+src+"/"+feat, describe()+fmt.Sprintf(" expected (%s,%s)", qclip(wa), qclip(wb)), rep(c))
+			m.Violate(lab+"/not-applied-although-sent/"+src+"/"+feat+again, describe()+fmt.Sprintf(" expected (%s,%s)", qclip(wa), qclip(wb)), rep(c))
 		}
 		return
 	}
@@ -910,30 +1011,32 @@ func judge(m *mon.M, c *Case, e *expectation, o *observation) {
 		switch {
 		case leakedDefault(c, o.p, ga, gb) && !e.defaultEffective:
 			sig = lab + "/default-auth-" + whyDefaultIdle(c)
+		case o.p.kind == "apikey" && o.p.in == "query" && staticSourceOf(c, o.p.name, ga) != "":
+			sig = lab + "/static-query-parameter-beats-key/" + staticSourceOf(c, o.p.name, ga)
 		case o.p.kind == "bearer":
 			if s := bearerSourceOf(c, ga); s != "" && !strings.HasPrefix(src, s) {
 				sig = "bearer/precedence/" + s + "-beats-" + strings.SplitN(src, ":", 2)[0]
 			}
 		}
-		m.Violate(sig, describe()+fmt.Sprintf(" callback got (%s,%s), expected (%s,%s)%s", qclip(ga), qclip(gb), qclip(wa), qclip(wb), diffAt(ga+"\x00"+gb, wa+"\x00"+wb)), rep(c))
+		m.Violate(sig+again, describe()+fmt.Sprintf(" callback got (%s,%s), expected (%s,%s)%s", qclip(ga), qclip(gb), qclip(wa), qclip(wb), diffAt(ga+"\x00"+gb, wa+"\x00"+wb)), rep(c))
 	}
-	if o.p.kind == "bearer" && !sameScopes(o.calls[0].scopes, c.Scopes) {
-		m.Violate("bearer/scopes-differ", describe()+fmt.Sprintf(" callback got scopes %q, required %q", o.calls[0].scopes, c.Scopes), rep(c))
+	if o.p.kind == "bearer" && !sameScopes(o.calls[0].scopes, o.scopes) {
+		m.Violate("bearer/scopes-differ"+again, describe()+fmt.Sprintf(" callback got scopes %q, required %q", o.calls[0].scopes, o.scopes), rep(c))
 	}
 	if o.principal != o.cbPrincipal {
-		m.Violate(lab+"/principal-substituted/outcome-"+c.Outcome, describe()+fmt.Sprintf(" callback returned %v", o.cbPrincipal), rep(c))
+		m.Violate(lab+"/principal-substituted/outcome-"+c.Outcome+again, describe()+fmt.Sprintf(" callback returned %v", o.cbPrincipal), rep(c))
 	}
 	if o.err != o.cbErr {
-		m.Violate(lab+"/error-substituted/outcome-"+c.Outcome, describe()+fmt.Sprintf(" callback returned error %v", o.cbErr), rep(c))
+		m.Violate(lab+"/error-substituted/outcome-"+c.Outcome+again, describe()+fmt.Sprintf(" callback returned error %v", o.cbErr), rep(c))
 	}
 	if c.Ctx && o.ctxMarker == nil {
-		m.Violate(lab+"/callback-context-dropped/outcome-"+c.Outcome, describe()+" the context returned by the context-aware callback is not the request's context afterwards", rep(c))
+		m.Violate(lab+"/callback-context-dropped/outcome-"+c.Outcome+again, describe()+" the context returned by the context-aware callback is not the request's context afterwards", rep(c))
 	}
 	if o.p.kind == "basic" && o.cbErr != nil {
-		judgeRealm(m, c, o, "refused")
+		judgeRealm(m, c, o, "refused"+again)
 	}
 	if o.p.kind == "bearer" && o.schemeName != c.SchemeNm {
-		m.Violate("bearer/scheme-name-marker-differs", describe()+fmt.Sprintf(" OAuth2SchemeName=%q, authenticator name %q", o.schemeName, c.SchemeNm), rep(c))
+		m.Violate("bearer/scheme-name-marker-differs"+again, describe()+fmt.Sprintf(" OAuth2SchemeName=%q, authenticator name %q", o.schemeName, c.SchemeNm), rep(c))
 	}
 }
 
@@ -945,6 +1048,42 @@ func judgeRealm(m *mon.M, c *Case, o *observation, when string) {
 	if o.failedRealm != want {
 		m.Violate("basic/failed-realm-marker-differs/"+when+"/realm-"+c.RealmMode,
 			fmt.Sprintf("[%s] FailedBasicAuth=%q, expected realm %q (mode %s, ctx=%v)", channel(c), o.failedRealm, want, c.RealmMode, c.Ctx), rep(c))
+	}
+}
+
+// staticSourceOf tells which static query parameter (of the base path or of the path pattern) carries the value v under the name.
+func staticSourceOf(c *Case, name, v string) string {
+	for _, kv := range c.PatternQuery {
+		if kv.Name == name && string(kv.Value) == v {
+			return "in-path-pattern"
+		}
+	}
+	for _, kv := range c.BaseQuery {
+		if kv.Name == name && string(kv.Value) == v {
+			return "in-base-path"
+		}
+	}
+	return ""
+}
+
+// judgeMarkers re-reads, after every authenticator of the case was consulted (twice) on ONE request, what the
+// authenticators documented to have left on it: a later consultation must not wipe what an earlier one recorded.
+func judgeMarkers(m *mon.M, c *Case, e *expectation, o *observation) {
+	m.Class("shared-request/markers-re-read")
+	if !e.basic || c.Outcome == "err" || c.Outcome == "both" {
+		when := "refused"
+		if !e.basic {
+			when = "no-credential"
+		}
+		judgeRealm(m, c, o, when+"/after-later-authenticators")
+	}
+	if e.bearer && o.schemeName != c.SchemeNm {
+		m.Violate("bearer/scheme-name-marker-differs/after-later-authenticators",
+			fmt.Sprintf("[%s] after all authenticators were consulted on one request, OAuth2SchemeName=%q, authenticator name %q", channel(c), o.schemeName, c.SchemeNm), rep(c))
+	}
+	if c.Ctx && o.ctxMarker == nil && (e.basic || e.bearer || len(e.hdrKeys)+len(e.qryKeys) > 0) {
+		m.Violate("shared-request/callback-context-dropped",
+			fmt.Sprintf("[%s] after all authenticators were consulted on one request, no value of a context returned by a context-aware callback is left on it", channel(c)), rep(c))
 	}
 }
 
@@ -1070,6 +1209,9 @@ func genWriters(r *rand.Rand, n int, used tokenSet) []Cred {
 
 func genCase(r *rand.Rand) *Case {
 	used := tokenSet{}
+	for _, v := range append(append([]string{}, baseStatic...), patternStatic...) {
+		used[v] = true // no credential of the case equals a static query value
+	}
 	c := &Case{}
 	if r.Intn(2) == 0 {
 		c.Default = genWriters(r, 1+r.Intn(2), used)
@@ -1129,7 +1271,18 @@ func genCase(r *rand.Rand) *Case {
 	c.SchemeNm = schemeNms[r.Intn(len(schemeNms))]
 	c.KeyCase = r.Intn(4)
 	c.InCase = r.Intn(3)
-	c.Outcome = []string{"ok", "ok", "err", "both"}[r.Intn(4)]
+	c.Outcome = []string{"ok", "ok", "err", "both", "none"}[r.Intn(5)]
+	// the same *http.Request consulted more than once (several alternatives / schemes of one operation)
+	switch k := r.Intn(10); {
+	case k < 2:
+		c.Reuse = "twice"
+	case k < 4:
+		c.Reuse = "shared"
+	}
+	// static query parameters in the base path and/or the path pattern, mostly named like a query-located key of the case
+	if r.Intn(5) == 0 {
+		addStatic(r, c)
+	}
 	// long credentials: one (sometimes two) of the case's credentials of 100 B / 4 KiB / 64 KiB
 	if r.Intn(40) == 0 {
 		addStretch(r, c)
@@ -1138,6 +1291,49 @@ func genCase(r *rand.Rand) *Case {
 		}
 	}
 	return c
+}
+
+var (
+	baseStatic    = []string{"public-demo", "acme"}
+	patternStatic = []string{"anonymous", "guest"}
+)
+
+// effectiveQueryKeys lists the names of the query-located API keys among the writers that are owed to take effect.
+func effectiveQueryKeys(c *Case) []string {
+	var l []Cred
+	switch {
+	case c.HasOpAuth:
+		l = c.OpAuth
+	case c.Preset == nil:
+		l = c.Default
+	}
+	var out []string
+	for _, w := range l {
+		if w.Kind == "apikey" && w.In == "query" {
+			out = append(out, w.Name)
+		}
+	}
+	return out
+}
+
+// addStatic puts a static query parameter into the base path, the path pattern or both. Its name is that of an
+// effective query-located API key (the writer's value is owed to win: "recovered exactly") or an unrelated one
+// ("tenant": never a key name of any pool, so that no probe's applicability depends on it).
+func addStatic(r *rand.Rand, c *Case) {
+	names := effectiveQueryKeys(c)
+	name := func() string {
+		if len(names) > 0 && r.Intn(4) != 0 {
+			return names[r.Intn(len(names))]
+		}
+		return "tenant"
+	}
+	where := r.Intn(3)
+	if where != 1 {
+		c.BaseQuery = append(c.BaseQuery, KV{Name: name(), Value: mon.Q(baseStatic[r.Intn(len(baseStatic))])})
+	}
+	if where != 0 {
+		c.PatternQuery = append(c.PatternQuery, KV{Name: name(), Value: mon.Q(patternStatic[r.Intn(len(patternStatic))])})
+	}
 }
 
 func run(m *mon.M) {
